@@ -136,7 +136,7 @@ def program(x):
         elif shape == "char_before_same_key":
             bad = ["    #[strum(props(a = 'c', a = \"c\"))]", "    Bad,"]
         else:
-            lit = {"float": "1.5", "char": "'c'", "bytestr": 'b"x"', "byte": "b'x'"}[shape]
+            lit = {"float": "1.5", "char": "'c'", "bytestr": 'b"x"', "byte": "b'x'", "cstr": 'c"x"'}[shape]
             bad = ["    #[strum(props(a = %s))]" % lit, "    Bad,"]
     elif rule == "unknown_kw":
         if shape == "enum":
